@@ -130,7 +130,7 @@ def transcribed_cases(thorough=False):
     pygaps.logger.disabled = True
     import pygaps.characterisation.psd_micro as PMi
     from pygaps.characterisation.models_hk import get_hk_model
-    Ws = numpy.array([0.70, 0.80, 1.00, 1.10, 1.30, 1.40, 1.60, 1.70, 1.90, 2.00])
+    Ws = numpy.array([0.70, 0.80, 1.00, 1.10, 1.30, 1.40, 1.60, 1.70, 1.90, 2.00, 2.30, 2.40, 2.70, 2.80])  # up to the ~3 nm the property names
     for matname in (['Carbon(HK)', 'AlSiOxideIon'] if thorough else ['Carbon(HK)']):
         mat = get_hk_model(matname)
         for T in ((77.355, 150.0) if thorough else (77.355,)):
